@@ -13,7 +13,9 @@ Driver for the remote-function correspondence (C12, C19): reads the traces of th
       observable label enabled, the same set of pending calls, the same counter value, the same
       number of executions in progress and the same provider-task status;
  (ii) evaluates the property predicates directly on the real history, independently of the model:
-        c12  own reply (tag and execution nonce in arguments and results), at most once per call
+        c12  every call completes (no call pending at the final quiescent point, except behind an
+             abandoned execution: c19), own reply (tag and execution nonce in arguments and
+             results), at most once per call
              (one execution per request, segments in order, value outcome ⇒ one complete execution
              with the arguments passed), `RFnMut` executions never overlap and run in the order of
              the closure's own invocation counter, every update of the shared counter is accounted
@@ -177,7 +179,10 @@ partial def closure (cfg : Cfg) (st : MSt) (lazy : List Nat) (fuel : Nat) : MSt 
   if fuel == 0 then st else
   let ids := List.range st.n
   let cands := (ids.filter (fun c => !lazy.contains c)).map Label.sendFail ++ ids.map Label.enqueue ++ [Label.dequeue] ++ ids.map Label.permit
-      ++ ids.map Label.closeSeen ++ ids.map Label.deliver ++ ids.map Label.purge ++ [Label.provTerm, Label.serveEnd]
+      ++ ids.map Label.closeSeen
+      -- (cancel variant) an execution cancelled before its first poll leaves no trace in the log
+      ++ (ids.filter (fun c => st.pc c == 0)).map Label.execCancel
+      ++ ids.map Label.deliver ++ ids.map Label.purge ++ [Label.provTerm, Label.serveEnd]
   let rec tryCands : List Label → Option MSt
     | [] => none
     | l :: ls =>
@@ -478,7 +483,9 @@ def onEv1 (s : Sim) (line : Nat) (ws : List String) : Sim :=
         | some o => o.abandonT.isSome || (s.remote && s.killed)
         | none => false)
       let cause := if abandonedActive && c.execs.isEmpty then "blocked-behind-abandoned-execution" else "none"
-      (s.fail "c19" line s!"call-hangs cause={cause} (call {tag} is still pending at the final quiescent point)").bump "hangs"
+      let s := (s.fail "c19" line s!"call-hangs cause={cause} (call {tag} is still pending at the final quiescent point)").bump "hangs"
+      -- "every remote function call completes with exactly one outcome"
+      if cause == "none" then s.fail "c12" line s!"call-never-completes (call {tag} is still pending at the final quiescent point)" else s
   | _ => s
 
 def onEv (s : Sim) (line : Nat) (ws : List String) : Sim := maybeDropCallers (onEv1 s line ws)
